@@ -8,6 +8,7 @@ pub mod engine_vec;
 pub mod noise;
 pub mod runners_adp;
 pub mod runners_long;
+pub mod runners_migrate;
 pub mod runners_misc;
 pub mod runners_obs;
 pub mod runners_pairs;
